@@ -390,6 +390,12 @@ func (f *Fn) expand(pkg *types.Package) {
 				continue
 			}
 			pending[cont], hasPending[cont] = calls[1:], true
+			// the chain of expanded calls a block belongs to (empty for the function's own blocks)
+			chain := append(append([]*ast.CallExpr{}, f.blockCalls[b]...), call)
+			for _, ib := range inserted {
+				f.blockCalls[ib] = chain
+			}
+			f.blockCalls[cont] = f.blockCalls[b]
 			f.inlAt[n] = appendSite(f.inlAt[n], site)
 			f.inlCall[call] = true
 			f.bodies = appendBody(f.bodies, site.Callee)
@@ -559,3 +565,23 @@ func (f *Fn) IsSynthetic(n ast.Node) bool { return f.synthetic[n] }
 
 // InlinedAt returns the calls inside CFG node n that were expanded before it.
 func (f *Fn) InlinedAt(n ast.Node) []*InlSite { return f.inlAt[n] }
+
+// Instance is one occurrence of a CFG node of an expanded helper: the facts before it and the chain of
+// calls (outermost first, the first one sits in the function's own body) through which it was expanded.
+type Instance struct {
+	State State
+	Calls []*ast.CallExpr
+}
+
+// Instances returns the occurrences of the CFG node containing n (one for a node of the function's own body).
+func (a *Analysis) Instances(n ast.Node) []Instance {
+	_, _, root, ok := a.Fn.Locate(n)
+	if !ok {
+		return nil
+	}
+	var out []Instance
+	for _, r := range a.Fn.whereAll[root] {
+		out = append(out, Instance{State: a.stateAt(r.b, r.idx), Calls: a.Fn.blockCalls[r.b]})
+	}
+	return out
+}
